@@ -162,12 +162,118 @@ func isNilErrorReturn(r *ssa.Return) bool {
 	return may
 }
 
+type ckptEvent struct {
+	site   *ssa.Call // UpdateCheckpoint, or the call of a commit helper
+	file   string    // the map file the checkpoint belongs to ("mdb.HashMapA.data.")
+	synced bool      // the site itself syncs that file after the header write
+}
+
+type ckptStore struct {
+	in  ssa.Instruction // store to HashMap.checkpoint, or the call of a commit helper
+	val ssa.Value
+}
+
+// commitHelper: h (a method the reference tree does not have) sets its receiver's checkpoint from one
+// of its parameters, then writes it with UpdateCheckpoint on the same receiver, and every path from
+// there to a successful return passes Sync on the receiver's data file. Returns the parameter index.
+func commitHelper(h *ssa.Function) (int, bool) {
+	if h == nil || !gNewFuncs[h] || len(h.Blocks) == 0 || h.Signature.Recv() == nil {
+		return 0, false
+	}
+	us := callsIn(h, idUpdCkpt)
+	if len(us) != 1 {
+		return 0, false
+	}
+	u := us[0]
+	if callRecv(u) == nil || rootParam(callRecv(u)) != h.Params[0] {
+		return 0, false
+	}
+	idx := -1
+	for _, a := range fieldAccesses(h) {
+		if a.Kind != "store" || a.Type != tHashMap || a.Field != "checkpoint" {
+			continue
+		}
+		st := a.In.(*ssa.Store)
+		if !instrDominates(st, u) {
+			return 0, false
+		}
+		for i, p := range h.Params {
+			if strip(st.Val) == ssa.Value(p) {
+				idx = i
+			}
+		}
+	}
+	if idx < 1 {
+		return 0, false
+	}
+	ufile := recvPath(u) + "data."
+	r := reach(h, u, errorEdgeCut(h, u, true), func(in ssa.Instruction) bool {
+		cl, ok := in.(*ssa.Call)
+		return ok && isCall(cl, idSync) && recvPath(cl) == ufile
+	})
+	for _, ret := range returnsOf(h) {
+		if r(ret) && isNilErrorReturn(ret) {
+			// `return hm.data.Sync()` stops at the Sync call itself, so a reached return is a path without it
+			return 0, false
+		}
+	}
+	return idx, true
+}
+
+// rootParam: the parameter a value is (a load/field/conversion of), or nil.
+func rootParam(v ssa.Value) ssa.Value {
+	for i := 0; i < 8; i++ {
+		switch x := v.(type) {
+		case *ssa.Parameter:
+			return x
+		case *ssa.FieldAddr:
+			v = x.X
+		case *ssa.Field:
+			v = x.X
+		case *ssa.UnOp:
+			v = x.X
+		case *ssa.ChangeType:
+			v = x.X
+		default:
+			return nil
+		}
+	}
+	return nil
+}
+
 func checkPlotOrder(c *Ctx, rule string, fn *ssa.Function, mapField string) {
 	name := fn.Name()
 	ws := callsIn(fn, idWTW)
-	us := callsIn(fn, idUpdCkpt)
 	ss := callsIn(fn, idSync)
-	if len(ws) == 0 || len(us) < 2 || len(ss) == 0 {
+	// checkpoint events: direct UpdateCheckpoint calls, and calls of a commit helper the reference tree
+	// does not have (sets the checkpoint from an argument, writes the header, syncs the file)
+	var us []ckptEvent
+	var ckStores []ckptStore
+	for _, u := range callsIn(fn, idUpdCkpt) {
+		us = append(us, ckptEvent{site: u, file: recvPath(u) + "data."})
+	}
+	for _, a := range fieldAccesses(fn) {
+		if a.Kind == "store" && a.Type == tHashMap && a.Field == "checkpoint" {
+			ckStores = append(ckStores, ckptStore{in: a.In, val: a.In.(*ssa.Store).Val})
+		}
+	}
+	allInstrs(fn, func(in ssa.Instruction) {
+		cl, ok := in.(*ssa.Call)
+		if !ok {
+			return
+		}
+		if idx, isCommit := commitHelper(cl.Call.StaticCallee()); isCommit && idx < len(cl.Call.Args) {
+			us = append(us, ckptEvent{site: cl, file: recvPath(cl) + "data.", synced: true})
+			ckStores = append(ckStores, ckptStore{in: cl, val: cl.Call.Args[idx]})
+		}
+	})
+	nSynced := 0
+	for _, u := range us {
+		if u.synced {
+			nSynced++
+		}
+	}
+	if len(ws) == 0 || len(us) < 2 || len(ss)+nSynced == 0 {
 		c.Bad(rule, name+":shape", c.Pos(fn.Pos()), fmt.Sprintf("reason=anchor-missing: expected WriteToWriter, two UpdateCheckpoint and Sync calls, found %d/%d/%d", len(ws), len(us), len(ss)))
 		return
 	}
@@ -180,6 +286,11 @@ func checkPlotOrder(c *Ctx, rule string, fn *ssa.Function, mapField string) {
 			}
 			if isCall(cl, idSync) {
 				return recvPath(cl) == file
+			}
+			for _, u := range us {
+				if u.site == cl && u.synced && u.file == file {
+					return true
+				}
 			}
 			// a helper whose every possibly-successful return has passed Sync on a file reached from
 			// its receiver (one level of summary): hm.sync() == hm.data.Sync()
@@ -199,7 +310,8 @@ func checkPlotOrder(c *Ctx, rule string, fn *ssa.Function, mapField string) {
 		}
 		r := reach(fn, w, errorEdgeCut(fn, w, true), syncOn(wfile))
 		bad := false
-		for _, u := range us {
+		for _, ue := range us {
+			u := ue.site
 			if r(u) {
 				bad = true
 				c.Bad(rule, key, c.Pos(u.Pos()), "UpdateCheckpoint is reachable after the window write without a Sync of "+wfile+" in between: recorded progress can run ahead of durable data")
@@ -216,11 +328,16 @@ func checkPlotOrder(c *Ctx, rule string, fn *ssa.Function, mapField string) {
 		}
 	}
 	// (2) UpdateCheckpoint -> Sync(same file) before the next window write or any normal return
-	for i, u := range us {
+	for i, ue := range us {
+		u := ue.site
 		key := fmt.Sprintf("%s:checkpoint-sync#%d", name, i+1)
-		ufile := recvPath(u) + "data."
+		ufile := ue.file
 		if ufile != wantFile {
 			c.Bad(rule, key, c.Pos(u.Pos()), "checkpoint is written to "+ufile+" instead of "+wantFile)
+			continue
+		}
+		if ue.synced {
+			c.OK(rule, key, c.Pos(u.Pos()), "the commit helper syncs "+ufile+" after writing the checkpoint, on every path to its successful return")
 			continue
 		}
 		r := reach(fn, u, errorEdgeCut(fn, u, true), syncOn(ufile))
@@ -246,7 +363,15 @@ func checkPlotOrder(c *Ctx, rule string, fn *ssa.Function, mapField string) {
 		key := name + ":final-checkpoint"
 		r := reach(fn, nil, nil, func(in ssa.Instruction) bool {
 			cl, ok := in.(*ssa.Call)
-			return ok && isCall(cl, idUpdCkpt) && !blockReentered(fn, cl)
+			if !ok || blockReentered(fn, cl) {
+				return false
+			}
+			for _, ue := range us {
+				if ue.site == cl {
+					return true
+				}
+			}
+			return false
 		})
 		bad := false
 		for _, ret := range returnsOf(fn) {
@@ -257,19 +382,15 @@ func checkPlotOrder(c *Ctx, rule string, fn *ssa.Function, mapField string) {
 		}
 		// value stored to .checkpoint outside the loop derives from volume
 		foundFinal := false
-		for _, a := range fieldAccesses(fn) {
-			if a.Kind != "store" || a.Type != tHashMap || a.Field != "checkpoint" {
-				continue
-			}
-			st := a.In.(*ssa.Store)
-			sl := backSlice(st.Val)
-			if blockReentered(fn, st) {
+		for _, st := range ckStores {
+			sl := backSlice(st.val)
+			if blockReentered(fn, st.in) {
 				continue
 			}
 			foundFinal = true
 			if !sl.hasField(tHashMap, "volume") {
 				bad = true
-				c.Bad(rule, key, c.Pos(st.Pos()), "the final checkpoint value does not derive from the map's volume")
+				c.Bad(rule, key, c.Pos(st.in.Pos()), "the final checkpoint value does not derive from the map's volume")
 			}
 		}
 		if !foundFinal {
@@ -286,14 +407,13 @@ func checkPlotOrder(c *Ctx, rule string, fn *ssa.Function, mapField string) {
 	{
 		key := name + ":checkpoint-not-beyond-window"
 		done := false
-		for _, a := range fieldAccesses(fn) {
-			if a.Kind != "store" || a.Type != tHashMap || a.Field != "checkpoint" || !blockReentered(fn, a.In) {
+		for _, st := range ckStores {
+			if !blockReentered(fn, st.in) {
 				continue
 			}
-			st := a.In.(*ssa.Store)
-			e, ok := affine(st.Val)
+			e, ok := affine(st.val)
 			if !ok {
-				c.Unk(rule, key, c.Pos(st.Pos()), "checkpoint value is not an affine expression of the window start and size")
+				c.Unk(rule, key, c.Pos(st.in.Pos()), "checkpoint value is not an affine expression of the window start and size")
 				done = true
 				continue
 			}
@@ -315,14 +435,14 @@ func checkPlotOrder(c *Ctx, rule string, fn *ssa.Function, mapField string) {
 			}
 			done = true
 			if other || sCoef != 1 {
-				c.Bad(rule, key, c.Pos(st.Pos()), fmt.Sprintf("the in-loop checkpoint is not window-start + (0 or 1)*window-size + constant (start coefficient %d)", sCoef))
+				c.Bad(rule, key, c.Pos(st.in.Pos()), fmt.Sprintf("the in-loop checkpoint is not window-start + (0 or 1)*window-size + constant (start coefficient %d)", sCoef))
 				continue
 			}
 			// (b-1)*w + k <= 0 for all w >= 1  <=>  b <= 1 and b - 1 + k <= 0
 			if wCoef <= 1 && wCoef-1+e.k <= 0 && wCoef >= 0 {
-				c.OK(rule, key, c.Pos(st.Pos()), fmt.Sprintf("checkpoint = start + %d*size + %d <= start + size for every size >= 1", wCoef, e.k))
+				c.OK(rule, key, c.Pos(st.in.Pos()), fmt.Sprintf("checkpoint = start + %d*size + %d <= start + size for every size >= 1", wCoef, e.k))
 			} else {
-				c.Bad(rule, key, c.Pos(st.Pos()), fmt.Sprintf("checkpoint = start + %d*size + %d can exceed the end of the window just written: resuming there skips slots that were never plotted, and the plot still reports complete", wCoef, e.k))
+				c.Bad(rule, key, c.Pos(st.in.Pos()), fmt.Sprintf("checkpoint = start + %d*size + %d can exceed the end of the window just written: resuming there skips slots that were never plotted, and the plot still reports complete", wCoef, e.k))
 			}
 		}
 		if !done {
@@ -334,10 +454,10 @@ func checkPlotOrder(c *Ctx, rule string, fn *ssa.Function, mapField string) {
 		key := fmt.Sprintf("%s:window-offset#%d", name, i+1)
 		dst := w.Call.Args[4]
 		sl := backSlice(dst)
-		var loopStores []*ssa.Store
-		for _, a := range fieldAccesses(fn) {
-			if a.Kind == "store" && a.Type == tHashMap && a.Field == "checkpoint" && blockReentered(fn, a.In) {
-				loopStores = append(loopStores, a.In.(*ssa.Store))
+		var loopStores []ckptStore
+		for _, st := range ckStores {
+			if blockReentered(fn, st.in) {
+				loopStores = append(loopStores, st)
 			}
 		}
 		if len(loopStores) == 0 {
@@ -346,7 +466,7 @@ func checkPlotOrder(c *Ctx, rule string, fn *ssa.Function, mapField string) {
 		}
 		common := false
 		for _, st := range loopStores {
-			s2 := backSlice(st.Val)
+			s2 := backSlice(st.val)
 			for v := range s2.vals {
 				if _, isPhi := v.(*ssa.Phi); isPhi && sl.has(v) {
 					common = true
@@ -374,6 +494,10 @@ func plotErrClass(fn *ssa.Function, call *ssa.Call) bool {
 	}
 	// local closures returning error (ensureCacheMemory)
 	if call.Call.StaticCallee() != nil && call.Call.StaticCallee().Parent() != nil {
+		return true
+	}
+	// a helper the reference tree does not have, called on the plotting path
+	if h := call.Call.StaticCallee(); h != nil && gNewFuncs[h] {
 		return true
 	}
 	if _, ok := call.Call.Value.(*ssa.MakeClosure); ok {
@@ -418,7 +542,7 @@ func checkC10(c *Ctx) Meta {
 	var scope []*ssa.Function
 	for _, f := range []*ssa.Function{pre, plot, upd} {
 		if f != nil {
-			scope = append(scope, withClosures(f)...)
+			scope = append(scope, bodyFns(f, nil)...) // with helpers the reference tree does not have
 		}
 	}
 	runErrflow(c, errflowCfg{rule: "C10-ERR", scope: scope, classK: plotErrClass,
@@ -1066,7 +1190,8 @@ func exprStr(v ssa.Value, depth int) string {
 // slotMapping extracts "cond ? then : else" of the A-table slot mapping from fn.
 func slotMapping(fn *ssa.Function) string {
 	var out []string
-	for _, f := range withClosures(fn) {
+	for _, f := range bodyFns(fn, nil) { // fn, its closures and helpers the reference tree does not have
+		f := f
 		allInstrs(f, func(in ssa.Instruction) {
 			bo, ok := in.(*ssa.BinOp)
 			if !ok {
@@ -1328,28 +1453,56 @@ func checkC07ScanOwn(c *Ctx) {
 	if f := c.MustFn("C07-SCAN", "poc/engine/massdb/massdb.v1", "(*MassDBV1).plotWork"); f != nil {
 		key := "plotWork:offset-base-is-the-window-lower-bound"
 		n, bad := 0, ""
-		for _, w := range callsIn(f, "(*"+pkgMassDBV1+".MemCache).WriteAt") {
+		// the writes may sit in a helper the reference tree does not have (summary.go); the range test is
+		// looked for in the function that contains the write, in any of its source forms:
+		//   if L <= V && … { write }        if V < L || … { return }; write
+		for _, w := range callsInBody(f, "(*"+pkgMassDBV1+".MemCache).WriteAt") {
+			g := w.Parent()
+			weight := 1
+			if gNewFuncs[g] && len(gCallSitesOf[g]) > 0 {
+				weight = len(gCallSitesOf[g])
+			}
 			off := w.Call.Args[len(w.Call.Args)-1]
 			for x := range backSlice(off).vals {
 				sub, isB := x.(*ssa.BinOp)
-				if !isB || sub.Op != token.SUB {
+				if !isB || sub.Op != token.SUB || sub.Parent() != g {
 					continue
 				}
 				// a dominating range test  L <= V  (V = sub.X)
-				allInstrs(f, func(in ssa.Instruction) {
+				allInstrs(g, func(in ssa.Instruction) {
 					iff, ok := in.(*ssa.If)
 					if !ok {
 						return
 					}
 					cmp, isC := iff.Cond.(*ssa.BinOp)
-					if !isC || cmp.Op != token.LEQ || cmp.Y != sub.X {
+					if !isC || !iff.Block().Dominates(w.Block()) || len(iff.Block().Succs) != 2 {
 						return
 					}
-					if !iff.Block().Dominates(w.Block()) {
+					var lower ssa.Value
+					var viaTrue bool
+					switch {
+					case cmp.Op == token.LEQ && cmp.Y == sub.X: // L <= V
+						lower, viaTrue = cmp.X, true
+					case cmp.Op == token.GEQ && cmp.X == sub.X: // V >= L
+						lower, viaTrue = cmp.Y, true
+					case cmp.Op == token.LSS && cmp.X == sub.X: // V < L  (write on the false edge)
+						lower, viaTrue = cmp.Y, false
+					case cmp.Op == token.GTR && cmp.Y == sub.X: // L > V  (write on the false edge)
+						lower, viaTrue = cmp.X, false
+					default:
 						return
 					}
-					n++
-					if cmp.X != sub.Y {
+					// the write is reached only through the edge on which L <= V holds
+					edge := iff.Block().Succs[1]
+					other := iff.Block().Succs[0]
+					if viaTrue {
+						edge, other = other, edge
+					}
+					if !(edge.Dominates(w.Block()) && len(edge.Preds) == 1) && !unreachableWithout(g, iff.Block(), other, w) {
+						return
+					}
+					n += weight
+					if lower != sub.Y {
 						bad = c.Pos(w.Pos()) + " "
 					}
 				})
@@ -1552,4 +1705,16 @@ func checkMapALoadedByProgressOnly(c *Ctx, rule string) {
 	} else {
 		c.Bad(rule, key, c.Pos(ldA.Pos()), "whether a space is opened as finished depends on something other than map B's recorded checkpoint (e.g. on whether the `_a` file exists): a B file with an unfinished checkpoint and no companion is reported ready at 100% and offered for proofs")
 	}
+}
+
+
+// unreachableWithout: target cannot be reached from block `from` when the edge from->avoid is the only
+// one taken (i.e. every path from `from` to target leaves through the other successor).
+func unreachableWithout(f *ssa.Function, from, avoid *ssa.BasicBlock, target ssa.Instruction) bool {
+	if len(from.Instrs) == 0 {
+		return false
+	}
+	last := from.Instrs[len(from.Instrs)-1]
+	r := reach(f, last, func(a, b *ssa.BasicBlock) bool { return a == from && b != avoid }, nil)
+	return !r(target)
 }
